@@ -393,6 +393,119 @@ fn reader_transparency(args: &Args, out: &mut Out, rng: &mut Rng) {
 	}
 }
 
+/// The same law for the PMTiles reader's leaf-directory cache: lookup sequences on ONE opened reader over multi-level
+/// PMTiles files (2 or 3 directory levels, small fan-out, so that different lookups need different leaves and the
+/// same leaf repeatedly), some with a damaged leaf-directory section, compared with freshly opened readers.
+fn pm_reader_transparency(args: &Args, out: &mut Out, rng: &mut Rng) {
+	use crate::indep_formats::{encode_pmtiles, parse_pm_header, Comp, PmChoices, TileMap};
+	use versatiles_container::PMTilesReader;
+	let rt = tokio::runtime::Builder::new_multi_thread().worker_threads(2).enable_all().build().unwrap();
+	let n = args.n(40, 400);
+	for case in 0..n {
+		let mut tiles: TileMap = TileMap::new();
+		let z0 = *rng.pick(&[1u8, 2, 3, 5]);
+		for z in z0..=z0 + rng.below(2) as u8 {
+			let side = (1u32 << z).min(rng.range(2, 6) as u32);
+			for y in 0..side {
+				for x in 0..side {
+					if rng.chance(4, 5) {
+						let len = rng.range(1, 30) as usize;
+						tiles.insert((z, x, y), rng.bytes(len));
+					}
+				}
+			}
+		}
+		if tiles.len() < 4 {
+			continue;
+		}
+		let mut ch = PmChoices::plain(1, 1);
+		ch.icomp = *rng.pick(&[Comp::None, Comp::Gzip]);
+		ch.levels = *rng.pick(&[2u8, 2, 3]);
+		ch.fan_leaf = rng.range(2, 5) as usize;
+		ch.fan_mid = rng.range(2, 3) as usize;
+		ch.mixed_root = rng.chance(1, 3);
+		ch.clustered = rng.chance(1, 2);
+		let valid = encode_pmtiles(&tiles, &ch, rng).bytes;
+		let damaged = rng.chance(2, 3);
+		let mut bytes = valid.clone();
+		if damaged {
+			if let Ok(h) = parse_pm_header(&valid) {
+				let (lo, ll) = (h.leaves.0 as usize, h.leaves.1 as usize);
+				if ll > 0 && lo + ll <= bytes.len() {
+					// damage a stretch inside the leaf-directory section (one or several leaves), not the root
+					let at = lo + rng.below(ll as u64) as usize;
+					let len = (rng.range(1, 12) as usize).min(lo + ll - at);
+					for b in &mut bytes[at..at + len] {
+						*b ^= (rng.below(255) + 1) as u8;
+					}
+				}
+			}
+		}
+		let mut probes: Vec<(u8, u32, u32)> = tiles.keys().cloned().collect();
+		probes.push((z0, (1u32 << z0) - 1, (1u32 << z0) - 1));
+		probes.push((z0 + 2, 0, 0));
+		let mut seq = vec![];
+		for _ in 0..3 {
+			for p in &probes {
+				if rng.chance(2, 3) {
+					seq.push(*p);
+				}
+			}
+		}
+		if let Some(first) = seq.first().cloned() {
+			seq.insert(1, first);
+			seq.insert(2, first);
+		}
+		let open = || rt.block_on(PMTilesReader::open_reader(Box::new(DataReaderBlob::from(bytes.clone()))));
+		let look = |r: &PMTilesReader, c: &(u8, u32, u32)| lookup_verdict(catch(|| rt.block_on(r.get_tile_data(&TileCoord3::new(c.1, c.2, c.0).unwrap()))));
+		let fresh: Vec<String> = seq
+			.iter()
+			.map(|c| match catch(|| open()) {
+				Ok(Ok(r)) => look(&r, c),
+				Ok(Err(_)) => "open-err".into(),
+				Err(_) => "open-panic".into(),
+			})
+			.collect();
+		let shared: Vec<String> = match catch(|| open()) {
+			Ok(Ok(r)) => seq.iter().map(|c| look(&r, c)).collect(),
+			Ok(Err(_)) => vec!["open-err".into(); seq.len()],
+			Err(_) => vec!["open-panic".into(); seq.len()],
+		};
+		let errs = fresh.iter().filter(|v| *v == "err" || *v == "panic").count();
+		let oks = fresh.iter().filter(|v| v.starts_with("some:")).count();
+		let key = format!("C20p {case} z{z0} levels={} damaged={damaged} {}", ch.levels, hex(&bytes[bytes.len().saturating_sub(48)..]));
+		out.eval(&key, oks > 0 && (!damaged || errs > 0));
+		out.count(if damaged { "pm_reader_seq_damaged_container" } else { "pm_reader_seq_valid_container" });
+		out.count_n("pm_reader_seq_lookups", seq.len() as u64);
+		out.count_n("pm_reader_seq_failed_loads", errs as u64);
+		out.count_n("pm_reader_seq_tiles_served", oks as u64);
+		// on a valid container every stored tile must also come back with its bytes (the cache must not mix leaves up)
+		let mut wrong: Option<usize> = None;
+		if !damaged {
+			wrong = (0..seq.len()).find(|i| match tiles.get(&seq[*i]) {
+				Some(b) => shared[*i] != format!("some:{}", hex(b)),
+				None => shared[*i] != "none",
+			});
+		}
+		let bad = (0..seq.len()).find(|i| shared[*i] != fresh[*i]);
+		match (bad, wrong) {
+			(None, None) => out.oracle(true, "", json!(null), json!(null)),
+			(Some(i), _) => out.oracle(
+				false,
+				&format!("C20 pm-reader-transparency: lookup #{i} of {:?} on a PMTiles reader that served {} earlier lookups returns {} but a freshly opened reader returns {}", seq[i], i, trunc(&shared[i], 40), trunc(&fresh[i], 40)),
+				json!({"kind": "pm_reader_transparency", "damaged": damaged, "after_failed_load": fresh[..i].iter().any(|v| v == "err")}),
+				json!({"container_hex": hex(&bytes), "sequence": seq, "shared": shared.iter().map(|s| trunc(s, 24)).collect::<Vec<_>>(), "fresh": fresh.iter().map(|s| trunc(s, 24)).collect::<Vec<_>>()}),
+			),
+			(None, Some(i)) => out.oracle(
+				false,
+				&format!("C20 pm-reader-value: lookup #{i} of {:?} on a valid multi-level PMTiles file returns {} instead of the stored tile", seq[i], trunc(&shared[i], 40)),
+				json!({"kind": "pm_reader_value"}),
+				json!({"container_hex": hex(&bytes), "sequence": seq}),
+			),
+		}
+	}
+}
+
 // ---------- byte budget → capacity (`with_maximum_size`) ----------
 
 fn any_debug_len<K: std::fmt::Debug, V: std::fmt::Debug>(c: &LimitedCache<K, V>) -> u64 {
@@ -491,7 +604,7 @@ fn budget_cases(args: &Args, out: &mut Out, rng: &mut Rng) {
 pub fn run(args: &Args) {
 	quiet_panics();
 	let mut out = Out::new(&args.out);
-	out.rule = "histories of add/get/get_or_set(ok|fail) on LimitedCache<u64,u64>; byte-budget cases (C20b): with_maximum_size for 9 pair types (2..32 bytes, zero-sized, the two reader instantiations) with budgets at k pairs -1/0/+1 byte and n distinct insertions around the capacity; corpus first, then seeded random histories (≤10 keys, cap 1..64, with recency probes), thorough: all histories of length ≤5 over a 9-op alphabet for cap 1..3; plus reader-level transparency: lookup sequences (repeats, neighbours, after failed index loads) on ONE opened VersaTilesReader over valid and index-damaged containers vs the same lookups on freshly opened readers (oracle only); non-trivial = more insert-capable ops than the capacity (passes through an eviction); distinct by case text".into();
+	out.rule = "histories of add/get/get_or_set(ok|fail) on LimitedCache<u64,u64>; byte-budget cases (C20b): with_maximum_size for 9 pair types (2..32 bytes, zero-sized, the two reader instantiations) with budgets at k pairs -1/0/+1 byte and n distinct insertions around the capacity; corpus first, then seeded random histories (≤10 keys, cap 1..64, with recency probes), thorough: all histories of length ≤5 over a 9-op alphabet for cap 1..3; plus reader-level transparency: lookup sequences (repeats, neighbours, after failed index loads) on ONE opened VersaTilesReader over valid and index-damaged containers vs the same lookups on freshly opened readers (oracle only); the same for ONE PMTilesReader over independently encoded 2-/3-level PMTiles files (fan-out 2..5, mixed root, some with a damaged leaf section); non-trivial = more insert-capable ops than the capacity (passes through an eviction); distinct by case text".into();
 	let mut seen = HashMap::new();
 	if let Some(p) = &args.replay {
 		for line in std::fs::read_to_string(p).unwrap().lines() {
@@ -558,6 +671,7 @@ pub fn run(args: &Args) {
 	}
 	budget_cases(args, &mut out, &mut rng);
 	reader_transparency(args, &mut out, &mut rng);
+	pm_reader_transparency(args, &mut out, &mut rng);
 	out.extra.insert("histories_with_eviction_by_cap".into(), json!(seen.iter().map(|(k, v)| (k.to_string(), *v)).collect::<HashMap<_, _>>()));
 	out.finish();
 }
